@@ -364,8 +364,22 @@ def vocab_model_line(out):
 
 
 # ---------------------------------------------------------------------------------------------
+def strip_axioms_header(pres):
+    """Print Assumptions prints a header line "Axioms:" before the list; vlib's line regex takes it for an axiom
+    name.  Remove that pseudo-entry and re-derive the verdict from the real names (allow-list unchanged)."""
+    if not pres.get("axioms") or set(pres["axioms"]) != set(pres["theorems"]):
+        return pres                      # the build itself failed: nothing to repair
+    for t in pres["axioms"]:
+        pres["axioms"][t] = [a for a in pres["axioms"][t] if a != "Axioms"]
+    pres["bad_axioms"] = [b for b in pres.get("bad_axioms", []) if not b.endswith(" depends on Axioms")]
+    if not pres["bad_axioms"] and not pres.get("forbidden"):
+        pres["failed"] = []
+        pres["discharged"] = pres["obligations"]
+    return pres
+
+
 def run(ctx):
-    pres = vlib.coq_prove("C13")
+    pres = strip_axioms_header(vlib.coq_prove("C13"))
     ctx.set_proof(pres)
     rng = ctx.rng
     tools = {n: vlib.tool(n) for n in ("lmplz", "interpolate")}
